@@ -10,7 +10,15 @@ from vcheck.vsched import explore
 def _unit(arg):
     modname, cfg, budget, cap = arg
     mod = importlib.import_module(modname)
-    st, viols = explore.explore(lambda p: mod.exec_one(cfg, p), budget, max_execs=cap)
+    acc = {}
+    merge = getattr(mod, "merge", None)
+
+    def run(p):
+        r = mod.exec_one(cfg, p)
+        if merge is not None and not r.internal:
+            r.violations.extend(merge(acc, r, cfg) or [])
+        return r
+    st, viols = explore.explore(run, budget, max_execs=cap)
     seen = set()
     keep = []
     for _, v in viols:
@@ -23,10 +31,10 @@ def _unit(arg):
                       "outcomes": sorted(st.outcomes), "capped": st.capped,
                       "cap_note": st.cap_note, "internal": st.internal[:3],
                       "end_reasons": st.end_reasons},
-            "viols": keep[:30], "nviol": len(viols)}
+            "viols": keep[:30], "nviol": len(viols), "acc": acc}
 
 
-def explore_units(ctx, modname, units, sample_n=4, label=lambda cfg: cfg):
+def explore_units(ctx, modname, units, sample_n=4, label=lambda cfg: cfg, accs=None):
     """units: list of (cfg, budget, cap). Returns (coverage dict, violations, internal)."""
     rnd = random.Random(ctx.seed)
     order = list(range(len(units)))
@@ -53,6 +61,8 @@ def explore_units(ctx, modname, units, sample_n=4, label=lambda cfg: cfg):
                     "by_deviation_level": s["by_level"], "distinct_outcomes": len(s["outcomes"]),
                     "capped": s["capped"], "cap_note": s["cap_note"]})
         viols.extend(r["viols"])
+        if accs is not None:
+            accs.append(r.get("acc") or {})
     per.sort(key=lambda p: repr(p["cfg"]))
     vac = [p["cfg"] for p in per if p["distinct_outcomes"] <= 1 and p["executions"] > 50]
     cov = {
